@@ -181,7 +181,9 @@ class Check(PropertyCheck):
     technique = "Lean 4 proof (invariant induction over histories) + differential model-vs-addon correspondence"
     rule = ("hist cases: a pool of <=6 request shapes drawn from small pools of method/scheme/host/port/path/query/body/"
             "form/header values (so keys collide and near-collide), <=8 recordings (some without response, some non-HTTP), "
-            "a history of <=24 load/add/clear/option-change/request events with every combination of matching options; "
+            "a history of <=24 load/add/clear/option-change/request events with every combination of matching options, "
+            "including option changes that only re-order a list-valued option or add a duplicate name after recordings were "
+            "loaded (12 % of the cases are built around one such change); "
             "pair cases: two request shapes + one option set. distinct = distinct case; non-trivial = at least one request "
             "served or a pair whose keys are equal for one side only.")
     budget = {"quick": 1500, "thorough": 60000}
@@ -242,7 +244,7 @@ class Check(PropertyCheck):
     M = ["GET", "POST"]; S = ["http", "https"]; H = ["a.com", "b.com"]; P = [80, 8080]; PATH = ["/p", "/q", "/"]
     QK = ["x", "y", "z"]; QV = ["1", "2", "", None]; FK = ["u", "v", "w"]; FV = ["1", "2"]
     BODY = ["-", "41", "42", "753d31"]        # b"", b"A", b"B", b"u=1"
-    HN = ["X-A", "x-b"]; HV = ["1", "2"]
+    HN = ["X-A", "x-b", "X-C"]; HV = ["1", "2"]
 
     def gen_req(self, rng, base=None):
         if base is not None and rng.chance(0.75):
@@ -280,6 +282,22 @@ class Check(PropertyCheck):
                 "ignore_params": sub(self.QK[:2]), "ignore_payload_params": sub(self.FK[:2]),
                 "use_headers": sub(self.HN) if rng.chance(0.5) else []}
 
+    def permute_opts(self, rng, o):
+        """the same option set with one list-valued option re-ordered / given a duplicate: the ignore lists are sets as far
+        as the key is concerned, but the ORDER (and multiplicity) of server_replay_use_headers enters the key"""
+        o = dict(o)
+        fs = [f for f in ("use_headers", "use_headers", "ignore_params", "ignore_payload_params") if o[f]]
+        if not fs:
+            o["use_headers"] = rng.sample(self.HN, 2); return o
+        f = rng.pick(fs); l = list(o[f])
+        how = rng.randrange(4)
+        if how == 0 and len(l) > 1: l.reverse()
+        elif how == 1 and len(l) > 1: rng.shuffle(l)
+        elif how == 2: l.append(l[0])
+        else: l.insert(0, l[-1])
+        o[f] = l
+        return o
+
     def gen_cfg(self, rng):
         return {"reuse": rng.chance(0.25), "nopop": rng.chance(0.05), "kill_extra": rng.chance(0.1),
                 "extra": rng.pick(["forward", "kill", "204", "400", "404", "500"]), "refresh": rng.chance(0.5)}
@@ -298,8 +316,10 @@ class Check(PropertyCheck):
             k = rng.weighted([(60, "req"), (15, "conf"), (10, "add"), (5, "load"), (3, "clear")])
             if k == "req": ev.append(["req", rng.randrange(len(reqs)), self.gen_cfg(rng)])
             elif k == "conf":
-                if rng.chance(0.5) or len(opts) > 4:
+                if rng.chance(0.4) or len(opts) > 5:
                     ev.append(["conf", rng.randrange(len(opts))])
+                elif rng.chance(0.4):
+                    opts.append(self.permute_opts(rng, opts[-1])); ev.append(["conf", len(opts) - 1])
                 else:
                     o = dict(opts[-1]); f = rng.pick(HASH_KEYS); o[f] = self.gen_opts(rng)[f]
                     opts.append(o); ev.append(["conf", len(opts) - 1])
@@ -308,9 +328,28 @@ class Check(PropertyCheck):
             else: ev.append(["clear"])
         return {"kind": "hist", "reqs": reqs, "recs": recs, "opts": opts, "events": ev}
 
+    def gen_reorder(self, rng):
+        """a history around one re-ordering of a list-valued option AFTER recordings were loaded: the index is built with the
+        first option set, the option is changed to the same names in another order / with a duplicate, then requests
+        equal to pending recordings arrive"""
+        c = self.gen_hist(rng)
+        o0 = dict(c["opts"][0]); o0["use_headers"] = rng.sample(self.HN, rng.randint(2, 3))
+        if rng.chance(0.3): o0["ignore_params"] = ["x", "y"]
+        opts = [o0, self.permute_opts(rng, o0)]
+        ids = [i for i, r in enumerate(c["recs"])]
+        ev = [["conf", 0], ["load", ids]]
+        if rng.chance(0.3): ev.append(["req", c["recs"][rng.pick(ids)]["req"], self.gen_cfg(rng)])
+        ev.append(["conf", 1])
+        for _ in range(rng.randint(1, 5)):
+            ev.append(["req", c["recs"][rng.pick(ids)]["req"] if rng.chance(0.8) else rng.randrange(len(c["reqs"])), self.gen_cfg(rng)])
+        if rng.chance(0.3): ev += [["conf", 0], ["req", c["recs"][rng.pick(ids)]["req"], self.gen_cfg(rng)]]
+        return {**c, "opts": opts, "events": ev}
+
     def generate(self, rng, tier):
         while True:
-            if rng.chance(0.75):
+            if rng.chance(0.12):
+                yield self.gen_reorder(rng)
+            elif rng.chance(0.75):
                 yield self.gen_hist(rng)
             else:
                 a = self.gen_req(rng)
